@@ -443,10 +443,10 @@ pub fn run(ctx: &mut Ctx) -> Result<(), Violation> {
         crate::fun::with_operands(mode, || check_case(&c))
     });
     ctx.stage("random-lists", false, r)?;
-    let wc = ctx.tier.cases(3_000, 60_000);
+    let wc = ctx.tier.cases(3_000, 30_000);
     crate::wide::stage_count(ctx, "wide-long-lists", wc)?;
     crate::wide::fuzz_kind(ctx, "count", replay)?;
-    let wc = ctx.tier.cases(100, 2000);
+    let wc = ctx.tier.cases(100, 1000);
     crate::widetext::stage_long_lists(ctx, "text-lists-of-14-to-21-literals", wc)?;
     Ok(())
 }
